@@ -61,6 +61,35 @@ def coq_stream2(ctx, results, programs, max_cases, config, opt0):
     return len(cases), per_op
 
 
+COQ_IMPORTS3 = ['Base.Prelude', 'Model.Charge', 'Model.Tensor', 'Model.TakeSlice', 'Model.TensorCheck', 'Model.LegLookup', 'Model.LegLookupCheck']
+
+
+def coq_stream3(ctx, results, cases, max_cases, config, opt0):
+    """third correspondence stream: LegCharge.get_charge / get_qindex_of_charges against Model/LegLookup.v (checker check_lookup_case of
+    Model/LegLookupCheck.v: get_charge of every block and the result of every recorded look-up, ValueError = None)"""
+    lits, origin = [], []
+    for ci, res in enumerate(results):
+        for rec in res.get('coq3', []):
+            if len(lits) >= max_cases:
+                break
+            lg = rec['leg']
+            lit = common.coq_lit((rec['mods'], (lg['sizes'], lg['charges'], lg['qconj']), rec['blockcharges'],
+                                  [(c, common.opt(r)) for c, r in rec['queries']]))
+            lits.append('(%s : lookup_case)' % lit)
+            origin.append(ci)
+    if not lits:
+        return 0
+    bad, err = common.coq_failing_indices('cases_c02_lookup', COQ_IMPORTS3, 'check_lookup_case', lits, shard=400)
+    if err:
+        ctx.fail('correspondence', 'model evaluation failed (coq3): ' + err[-800:], None)
+    for b in bad[:5]:
+        ctx.fail('correspondence', 'Coq model (check_lookup_case: get_charge / get_qindex_of_charges) and implementation disagree',
+                 {'stream': 'c02x', 'program': cases[origin[b]], 'config': config, 'optimize0': opt0, 'coq_case': lits[b][:3000]})
+    for _ in lits:
+        ctx.count('model-vs-impl', len(ctx._distinct), nontrivial=False)
+    return len(lits)
+
+
 XSTREAM = {'flatop': 'flat-operator', 'flatpipe': 'flat-operator-pipe', 'leglookup': 'leg-lookups', 'linalg': 'linalg-functions'}
 
 
@@ -84,6 +113,8 @@ def linalg_streams(ctx, rng, seen, all_hist):
                     api_calls[k[4:]] = api_calls.get(k[4:], 0) + v
             if notes:
                 ctx.notes.append('%s-%s: observations outside C02 (not counted): %s' % (stream, config, dict(sorted(notes.items())[:12])))
+        if config == 'py':
+            ctx.cov['lookup_model_vs_impl_cases'] = coq_stream3(ctx, results, sel, ctx.pick(400, 4000), config, opt0)
         for c in crashes:
             ctx.fail('correspondence', 'the interpreter running the c02x streams died (exit %s): %s' % (c['rc'], c['out'][-300:]),
                      {'stream': 'c02x', 'config': config, 'optimize0': opt0, 'program': sel[c['index']]})
@@ -115,7 +146,7 @@ def main(ctx):
         ctx.proof = None
         return replay(ctx, PROP)
     rng = ctx.rng
-    ctx.proof = common.check_proofs(PROP, extra_targets=['Model/TensorCheck.vo', 'Model/TensorProgCheck.vo'])
+    ctx.proof = common.check_proofs(PROP, extra_targets=['Model/TensorCheck.vo', 'Model/TensorProgCheck.vo', 'Model/LegLookupCheck.vo'])
     nprog = ctx.pick(1400, 12000)
     nleg = ctx.pick(2500, 20000)
     if not ctx.proof.ok:
@@ -142,8 +173,11 @@ def main(ctx):
     results, infos, crashes = cc.run_programs('legs', legprogs, 'py', True)
     hist, notes = cc.collect(ctx, PROP, 'legs', legprogs, results, crashes, 'py', True, kind='legs', seen_keys=seen)
     all_hist['legs'] = hist
-    xstats = linalg_streams(ctx, rng, seen, all_hist)
-    ctx.cov['traces_validated_against_impl'] = sum(v['cases'] for v in coq_done.values())
+    import time
+    t0 = time.time()
+    linalg_streams(ctx, rng, seen, all_hist)
+    ctx.cov['c02x_wall_s'] = round(time.time() - t0, 1)
+    ctx.cov['traces_validated_against_impl'] = sum(v['cases'] for v in coq_done.values()) + ctx.cov.get('lookup_model_vs_impl_cases', 0)
     ctx.cov['model_vs_impl'] = coq_done
     ctx.cov['input_distribution'] = all_hist
     ctx.assumptions += [
